@@ -3034,6 +3034,8 @@ def SIR_heterogeneous_pairwise(Sk0, Ik0, Rk0, SkSl0, SkIl0, tau, gamma,
 
     Nk = Sk0+Ik0+Rk0
     kcount = len(Ks)
+    SkSl0 = SkSl0.copy()
+    SkIl0 = SkIl0.copy()
     SkSl0.shape = (kcount**2,1)
     SkIl0.shape = (kcount**2,1)
 
